@@ -136,8 +136,9 @@ def hash_mutable(obj) -> int:
         return hash((obj.start, obj.stop, obj.step))
 
     if isinstance(obj, numbers.Number):
-        # numbers are not hashed directly since hash(-1) == hash(-2) in CPython
-        return hash(("number", repr(obj)))
+        # numbers are not hashed directly since hash(-1) == hash(-2) in CPython; equal
+        # numbers of different types (e.g., 3, 3.0, and np.float64(3)) get the same hash
+        return hash(("number", hash(obj), bool(obj == -1)))
 
     try:
         # try using the internal hash function
